@@ -75,7 +75,7 @@ struct Rep { // reporting facade of one case
     }
 };
 static double CPU_LIMIT_S = 0.1;     // user CPU; a healthy case needs < 1 ms
-static double CONFIRM_LIMIT_S = 1.0; // a suspected hang is confirmed alone under this limit
+static double CONFIRM_LIMIT_S = 0.6; // a suspected hang is confirmed alone under this limit
 static void arm_cpu_limit(double s)
 {
     struct itimerval it;
@@ -1242,7 +1242,16 @@ int main(int argc, char **argv)
             if (pickq.count(SS.S[i].recipe))
                 sub.push_back(i);
     }
-    const long long ns = sub.size(), nc = n1 - n0;
+    // composite side: the first 3 states of every structural class (kind_deep) of S1 \ S0, simplest first
+    std::vector<int> comp;
+    {
+        std::map<std::string, int> per;
+        for (long long i = n0; i < n1; i++)
+            if (per[kind_deep(*SS.S[i].e)]++ < 3)
+                comp.push_back(i);
+    }
+    R.counters["states_S1_composite_classes_x3(L2_operands)"] = comp.size();
+    const long long ns = sub.size(), nc = comp.size();
     Layer l2;
     l2.name = "L2:op(S1,S0')+op(S0',S1)";
     l2.n = nc * ns * 2 * NOPS;
@@ -1252,7 +1261,7 @@ int main(int argc, char **argv)
         int dir = j % 2;
         j /= 2;
         int leaf = sub[j % ns];
-        int big = n0 + j / ns;
+        int big = comp[j / ns];
         ia = dir ? leaf : big;
         ib = dir ? big : leaf;
     };
@@ -1275,7 +1284,7 @@ int main(int argc, char **argv)
         run_layer(l2, false);
         if (replay_in(l2.name))
             return R.finish();
-        bound += "; every binary operation between each of the " + std::to_string(nc) + " composite states of S1 and each of "
+        bound += "; every binary operation between " + std::to_string(nc) + " composite states of S1 (the first 3 of every structural class) and each of "
                  + std::to_string(ns) + " leaves, both orders";
     }
 
